@@ -340,6 +340,17 @@ func cmdCheck(args []string) int {
 		// against the real code although every obligation passed; a harness that reproduces a violation then
 		// exposes a hole in the contracts (or a defect they do not state)
 		seen := map[string]bool{}
+		// a harness that belongs to a listed known finding reproduces THAT finding: it is not a canary
+		for _, o := range all {
+			for _, k := range known {
+				if k.Prop == prop && k.Obligation == o.Name {
+					if h := findHarness(o); h != nil && !seen[h.name] {
+						seen[h.name] = true
+						ev.Coverage.CanaryReplays = append(ev.Coverage.CanaryReplays, map[string]string{"harness": h.name, "result": "skipped: replays known finding " + o.Name})
+					}
+				}
+			}
+		}
 		for _, o := range all {
 			h := findHarness(o)
 			if h == nil || !h.modelFree || seen[h.name] {
